@@ -80,10 +80,33 @@ structure World where
   g : Global := {}
   slots : Array (Option KeyFile) := Array.replicate 64 none
   logOpen : Bool := false
+  -- object ids (ownership model, `OBJLOG 1`): id of the object in each slot, next id
+  objLog : Bool := false
+  ids : Array (Option Nat) := Array.replicate 64 none
+  next : Nat := 0
 
 def World.slot (w : World) (i : Nat) : Option KeyFile := (w.slots[i]?).join
 def World.setSlot (w : World) (i : Nat) (k : Option KeyFile) : World :=
   { w with slots := w.slots.setIfInBounds i k }
+
+def World.slotId (w : World) (i : Nat) : Option Nat := (w.ids[i]?).join
+def World.setId (w : World) (i : Nat) (k : Option Nat) : World :=
+  { w with ids := w.ids.setIfInBounds i k }
+/-- the caller's pointer as the ownership model sees it -/
+def World.own (w : World) (i : Nat) : Option (Nat × KeyFile) :=
+  match w.slot i, w.slotId i with
+  | some kf, some id => some (id, kf)
+  | _, _ => none
+def World.setOwn (w : World) (i : Nat) (k : Option (Nat × KeyFile)) : World :=
+  (w.setSlot i (k.map (·.2))).setId i (k.map (·.1))
+
+def ownLines (w : World) (log : List OEv) : List String :=
+  log.filterMap (fun ev => match ev with
+    | .new i => some s!"obj new {i}"
+    | .merged i => some s!"obj merged {i}"
+    | .free i => some s!"obj free {i}"
+    | .cb p => some s!"cb {hexStr p} 1"
+    | .openFile p => if w.logOpen then some s!"open {hexStr p}" else none)
 
 def ptrState (k : Option KeyFile) : String := if k.isSome then "obj" else "null"
 
@@ -263,8 +286,11 @@ def runCmd (w : World) (tok : Array String) : World × List String :=
     | "confdirs" => ({ w with g := { w.g with confDirs := (tok.toList.drop 2).map decD } }, ["confdirs E0"])
     | _ => (w, ["?"])
   | "LOGOPEN" => ({ w with logOpen := (t 1).toNat! != 0 }, [])
+  | "OBJLOG" => ({ w with objLog := (t 1).toNat! != 0 }, [])
   | "NEW" =>
     let s := slotOf (t 1)
+    let (w, pre) := if w.objLog then ({ w with next := w.next + 1 }.setId s (some w.next), [s!"obj new {w.next}"]) else (w, [])
+    (fun (r : World × List String) => (r.1, pre ++ r.2)) <|
     match t 2 with
     | "key" => (w.setSlot s (some (newKeyFile ((decD (t 3)).headD 0) ((decD (t 4)).headD 0))), ["new E0 obj"])
     | "ini" => (w.setSlot s (some newIniFile), ["new E0 obj"])
@@ -281,21 +307,42 @@ def runCmd (w : World) (tok : Array String) : World × List String :=
   | "RF" =>
     let s := slotOf (t 1)
     let ctx : RdCtx := { fs := w.fs, cb := cbFun (parseCb (topt 5)) }
+    if w.objLog then
+      let (o, e, r) := ownReadFile ctx { rs := { g := w.g }, next := w.next } (dec (t 2)) (dec (t 3)) (dec (t 4))
+      ({ w with g := o.rs.g, next := o.next }.setOwn s r, ownLines w o.log ++ [s!"rf {E e} {ptrState (r.map (·.2))}"])
+    else
     let (rs, e, kf) := readFile ctx { g := w.g } (dec (t 2)) (dec (t 3)) (dec (t 4))
     ({ w with g := rs.g }.setSlot s kf, traceLines w rs.trace ++ [s!"rf {E e} {ptrState kf}"])
   | "RC" =>
     let s := slotOf (t 1)
     let ctx : RdCtx := { fs := w.fs, cb := cbFun (parseCb (topt 8)) }
+    if w.objLog then
+      let (o, e, r) := ownReadConfig ctx { rs := { g := w.g }, next := w.next } (w.own s) (dec (t 2)) (dec (t 3)) (dec (t 4)) (dec (t 5)) (dec (t 6)) (decD (t 7))
+      ({ w with g := o.rs.g, next := o.next }.setOwn s r, ownLines w o.log ++ [s!"rc {E e} {ptrState (r.map (·.2))}"])
+    else
     let (rs, e, kf) := readConfig ctx { g := w.g } (w.slot s) (dec (t 2)) (dec (t 3)) (dec (t 4)) (dec (t 5)) (dec (t 6)) (decD (t 7))
     ({ w with g := rs.g }.setSlot s kf, traceLines w rs.trace ++ [s!"rc {E e} {ptrState kf}"])
   | "RD" =>
     let s := slotOf (t 1)
     let ctx : RdCtx := { fs := w.fs, cb := cbFun (parseCb (topt 8)) }
+    if w.objLog then
+      let (o, e, r) := ownReadDirs ctx { rs := { g := w.g }, next := w.next } (dec (t 2)) (dec (t 3)) (dec (t 4)) (dec (t 5)) (dec (t 6)) (decD (t 7))
+      ({ w with g := o.rs.g, next := o.next }.setOwn s r, ownLines w o.log ++ [s!"rd {E e} {ptrState (r.map (·.2))}"])
+    else
     let (rs, e, kf) := readDirs ctx { g := w.g } (dec (t 2)) (dec (t 3)) (dec (t 4)) (dec (t 5)) (dec (t 6)) (decD (t 7))
     ({ w with g := rs.g }.setSlot s kf, traceLines w rs.trace ++ [s!"rd {E e} {ptrState kf}"])
   | "RH" =>
     let s := slotOf (t 1)
     let ctx : RdCtx := { fs := w.fs, cb := cbFun (parseCb (topt 8)) }
+    if w.objLog then
+      let (o, r) := ownReadDirsHistory ctx { rs := { g := w.g }, next := w.next } (dec (t 2)) (dec (t 3)) (dec (t 4)) (dec (t 5)) (dec (t 6)) (decD (t 7))
+      let w := { w with g := o.rs.g, next := o.next }
+      match r with
+      | .error (e, nulled) => (w, ownLines w o.log ++ [s!"rh {E e} {if nulled then "null" else "untouched"}"])
+      | .ok files =>
+        let w := (files.zipIdx).foldl (fun w (f, i) => w.setOwn (s + i) (some f)) w
+        (w, ownLines w o.log ++ [s!"rh E0 obj {files.length}"])
+    else
     let (rs, r) := readDirsHistory ctx { g := w.g } (dec (t 2)) (dec (t 3)) (dec (t 4)) (dec (t 5)) (dec (t 6)) (decD (t 7))
     let w := { w with g := rs.g }
     match r with
@@ -310,7 +357,9 @@ def runCmd (w : World) (tok : Array String) : World × List String :=
     else
       let s := slotOf (t 1)
       match a, b with
-      | some a, some b => (w.setSlot s (some (mergeFiles a b)), ["m E0 obj"])
+      | some a, some b =>
+        if w.objLog then (({ w with next := w.next + 1 }.setSlot s (some (mergeFiles a b))).setId s (some w.next), [s!"obj merged {w.next}", "m E0 obj"])
+        else (w.setSlot s (some (mergeFiles a b)), ["m E0 obj"])
       | _, _ => (w.setSlot s none, ["m E1 null"])
   | "SET" =>
     match kfArg w (t 1) with
@@ -390,7 +439,12 @@ def runCmd (w : World) (tok : Array String) : World × List String :=
   | "DUMPX" => (w, dumpView (w.slot (slotOf (t 1))) true)
   | "RAW" => (w, dumpRaw (w.slot (slotOf (t 1))))
   | "RAWL" => (w, dumpRawL (w.slot (slotOf (t 1))))
-  | "FREE" => (w.setSlot (slotOf (t 1)) none, ["free null"])
+  | "FREE" =>
+    let s := slotOf (t 1)
+    let pre := match w.objLog, w.slot s, w.slotId s with
+      | true, some _, some id => [s!"obj free {id}"]
+      | _, _, _ => []
+    ((w.setSlot s none).setId s none, pre ++ ["free null"])
   | "FREENULL" => (w, ["freenull null null"])
   | "ERRLOC" => (w, [s!"errloc {hexStr w.g.errFile} {w.g.errLine}"])
   | "ERRSTR" => (w, [s!"errstr {hexStr (errString (t 1).toInt!).toUTF8.toList}"])
